@@ -5,6 +5,40 @@ use crate::c10::*;
 
 /// Test generated for harness `c10::c10_short2_n2` 
 ///
+/// Check for `safety_check`: "dereference failure: pointer invalid"
+///
+/// # Warning
+///
+/// Concrete playback tests combined with stubs or contracts is highly
+/// experimental, and subject to change.
+///
+/// The original harness has stubs which are not applied to this test.
+/// This may cause a mismatch of non-deterministic values if the stub
+/// creates any non-deterministic value.
+/// The execution path may also differ, which can be used to refine the stub
+/// logic.
+
+#[test]
+fn kani_concrete_playback_c10_short2_n2_4494774740848475047() {
+    let concrete_vals: Vec<Vec<u8>> = vec![
+        // -1
+        vec![255, 255, 255, 255],
+        // -1
+        vec![255, 255, 255, 255],
+        // -1
+        vec![255, 255, 255, 255],
+        // 5ul
+        vec![5, 0, 0, 0, 0, 0, 0, 0],
+        // 2
+        vec![2],
+        // 255
+        vec![255],
+    ];
+    kani::concrete_playback_run(concrete_vals, c10_short2_n2);
+}
+
+/// Test generated for harness `c10::c10_short2_n2` 
+///
 /// Check for `assume`: "Rust intrinsic assumption failed"
 ///
 /// # Warning
@@ -65,40 +99,6 @@ fn kani_concrete_playback_c10_short2_n2_11520210793910836700() {
         vec![1, 0, 0, 0, 0, 0, 0, 0],
         // 1
         vec![1],
-        // 255
-        vec![255],
-    ];
-    kani::concrete_playback_run(concrete_vals, c10_short2_n2);
-}
-
-/// Test generated for harness `c10::c10_short2_n2` 
-///
-/// Check for `safety_check`: "dereference failure: pointer invalid"
-///
-/// # Warning
-///
-/// Concrete playback tests combined with stubs or contracts is highly
-/// experimental, and subject to change.
-///
-/// The original harness has stubs which are not applied to this test.
-/// This may cause a mismatch of non-deterministic values if the stub
-/// creates any non-deterministic value.
-/// The execution path may also differ, which can be used to refine the stub
-/// logic.
-
-#[test]
-fn kani_concrete_playback_c10_short2_n2_10142037822420177259() {
-    let concrete_vals: Vec<Vec<u8>> = vec![
-        // -1
-        vec![255, 255, 255, 255],
-        // -1
-        vec![255, 255, 255, 255],
-        // -1
-        vec![255, 255, 255, 255],
-        // 1ul
-        vec![1, 0, 0, 0, 0, 0, 0, 0],
-        // 2
-        vec![2],
         // 255
         vec![255],
     ];
